@@ -20,13 +20,14 @@ func main() {
 	out := flag.String("out", "", "result JSON path")
 	root := flag.String("root", "/verif", "verif root (corpus, known findings, replays)")
 	replay := flag.String("replay", "", "replay file: run that one case and print I, M, S")
+	repo := flag.String("repo", "/repo", "repository under test (for checks that read its files)")
 	flag.Parse()
 	p := hx.Lookup(*prop)
 	if p == nil {
 		fmt.Fprintf(os.Stderr, "unknown property %q\n", *prop)
 		os.Exit(2)
 	}
-	ctx := &hx.Ctx{Tier: *tier, Seed: *seed, Rng: hx.NewRng(*seed)}
+	ctx := &hx.Ctx{Tier: *tier, Seed: *seed, Rng: hx.NewRng(*seed), Repo: *repo, Root: *root}
 	ctx.Corpus = hx.LoadCorpus(filepath.Join(*root, "corpus", p.ID))
 	eng := &hx.Engine{P: p, Ctx: ctx, ReplayDir: filepath.Join(*root, "replays"),
 		Known: hx.LoadKnown(filepath.Join(*root, "known_findings.json"), p.ID)}
